@@ -98,6 +98,23 @@ Definition life_next (n : Z) (start : bool) (b : life_obs) : Z :=
   let '(e, _, _, _) := b in
   if start then n + 1 else if e then n else n - 1.
 
+(* CCtxLife: as CLife; the end of a start-up context changes nothing and is no error *)
+Definition ctx_viol (n : Z) (o : cop) (b : life_obs) : list nat :=
+  match o with
+  | CStart _ => life_viol n true b
+  | CShutdown => life_viol n false b
+  | CCtxEnd _ =>
+      let '(e, rc, gor, chk) := b in
+      when (negb e) 10 ++ when (rc =? n) 11 ++ when (Bool.eqb gor (0 <? n)) 12 ++ when (Bool.eqb chk (0 <? n)) 13
+  end.
+
+Definition ctx_next (n : Z) (o : cop) (b : life_obs) : Z :=
+  match o with
+  | CStart _ => life_next n true b
+  | CShutdown => life_next n false b
+  | CCtxEnd _ => n
+  end.
+
 (* CSys: state = (users, mode, last forced GC) *)
 Definition sys_viol (l : limiter) (s : Z * bool * Z) (o : sop) (b : sobs) : list nat :=
   let '(n, mode, last_gc) := s in
@@ -227,6 +244,7 @@ Definition violations (c : vcase) : list nat :=
       | Some l => if wfb l then hviol (fine_viol l) (fine_next l) (0, false, None) ops obs else []
       | None => []
       end
+  | CCtxLife ops obs => hviol ctx_viol ctx_next 0 ops obs
   | CQuotaV1 _ _ _ | CQuotaV2 _ _ | CTotal _ _ | CDefault _ => []
   end.
 
